@@ -26,6 +26,7 @@ module in place; all of them preserve behaviour by construction:
                   `xs = []; for t in it: xs.append(e)` <-> `xs = [e for t in it]` at statement
                   level (loop variables that are read after the loop / that would shadow a name
                   of the function are left alone).
+  counter_updates `x += 1` -> `x = x + 1` for names / attributes updated by an integer literal.
 """
 from __future__ import annotations
 
@@ -962,6 +963,28 @@ class _ComprehensionsToLoops(ast.NodeTransformer):
 def comprehensions_to_loops(scratch: str) -> List[str]:
     """Statement-level list comprehensions written as append loops."""
     return _rewrite(scratch, lambda tree, src, full: _ComprehensionsToLoops().visit(tree))
+
+
+class _CounterUpdates(ast.NodeTransformer):
+    """x += 1  ->  x = x + 1  for counters (a name or attribute updated by an integer literal)"""
+
+    def visit_AugAssign(self, node):
+        if isinstance(node.target, (ast.Name, ast.Attribute)) and isinstance(node.value, ast.Constant) \
+                and isinstance(node.value.value, int) and not isinstance(node.value.value, bool) \
+                and isinstance(node.op, (ast.Add, ast.Sub)):
+            import copy
+            load = copy.deepcopy(node.target)
+            for x in ast.walk(load):
+                if hasattr(x, "ctx"):
+                    x.ctx = ast.Load()
+            return ast.copy_location(ast.Assign(
+                targets=[node.target], value=ast.BinOp(left=load, op=node.op, right=node.value)), node)
+        return node
+
+
+def counter_updates(scratch: str) -> List[str]:
+    """Integer counters updated with `x = x + 1` instead of `x += 1`."""
+    return _rewrite(scratch, lambda tree, src, full: _CounterUpdates().visit(tree))
 
 
 def all_rewrites(scratch: str) -> List[str]:
